@@ -115,6 +115,36 @@ func init() {
 					Fields: []string{hx(p.Src), mode, strings.Join(fs, ",")}, Meta: map[string]string{}})
 			}
 		}
+		// large files: unmatched stretches longer than the 4096-byte read window, sizes around its multiples
+		nbig := sizes(tier, 24, 300)
+		for i := 0; i < nbig; i++ {
+			size := []int{4095, 4096, 4097, 5000, 8191, 8192, 8193, 9000, 12288, 12289}[r.Intn(10)] + r.Intn(3)
+			b := make([]byte, size)
+			for j := range b {
+				b[j] = "qrs\n"[r.Intn(4)]
+				if r.Intn(40) != 0 && b[j] == '\n' {
+					b[j] = 'q'
+				}
+			}
+			nm := r.Intn(4)
+			for j := 0; j < nm; j++ {
+				pos := r.Intn(size - 2)
+				if r.Intn(3) == 0 {
+					pos = []int{0, 4094, 4095, 4096, size - 2}[r.Intn(5)]
+				}
+				b[pos], b[pos+1] = 'Z', 'Z'
+			}
+			src := "replace all 'ZZ' with " + []string{"'<>'", "'y'", "''", "'0123456789'"}[r.Intn(4)]
+			if r.Intn(5) == 0 {
+				src = "find all 'ZZ'"
+			}
+			st.Features["large-file"]++
+			fs := []string{"f.txt=" + hx(string(b)), "other.txt=" + hx("bystander")}
+			for _, mode := range []string{"NEW", "NOTHING", "OVERWRITE"} {
+				cases = append(cases, Case{ID: fmt.Sprintf("big%d.%s", i, mode), Op: "files",
+					Fields: []string{hx(src), mode, strings.Join(fs, ",")}, Meta: map[string]string{}})
+			}
+		}
 		return cases
 	}
 }
